@@ -37,3 +37,42 @@ Print Assumptions C11_unfragment.
 Print Assumptions C11_fixpoint.
 Print Assumptions C11_idempotent.
 Print Assumptions C11_inverse.
+
+(* ---- audit follow-ups (Proofs/OpsUnfragExtra.v) ---- *)
+From Astisub Require Import Proofs.FragmentProofs Proofs.OpsUnfragExtra.
+
+(* inside a MIXED list (any order; other cues may merge): a cue separated by a gap from every OTHER cue with its
+   text ([iso]: the others are the rest of the list, so a duplicate counts as another cue) is a cue of the output -
+   the same record, i.e. times, content and identity unchanged.  Zero-length cues (start = end) are covered: the
+   only hypothesis on the cues is start <= end. *)
+Theorem C11_untouched_in_mixed : forall l1 x l2,
+  wf (l1 ++ x :: l2) -> iso x (l1 ++ l2) -> In x (unfragment (l1 ++ x :: l2)).
+Proof. exact unfragment_keeps_isolated. Qed.
+(* cues with a different text never matter *)
+Theorem C11_untouched_unique_text : forall l1 x l2, wf (l1 ++ x :: l2) ->
+  Forall (fun y => tx y <> tx x) (l1 ++ l2) -> In x (unfragment (l1 ++ x :: l2)).
+Proof. exact unfragment_keeps_unique_text. Qed.
+(* a zero-length cue at instant s is kept when every other cue with its text ends before s or starts after s *)
+Theorem C11_untouched_zero_length : forall l1 x l2, st x = en x -> wf (l1 ++ x :: l2) ->
+  Forall (fun y => tx y = tx x -> en y < st x \/ st x < st y) (l1 ++ l2) -> In x (unfragment (l1 ++ x :: l2)).
+Proof. exact unfragment_keeps_isolated_zero_length. Qed.
+
+(* non-vacuity: unordered, two texts; 1-2-3 merge; 4 (other text, overlapping) untouched; 5 (same text, after a gap)
+   untouched; 6 (zero-length, in a gap) untouched; 8 (zero-length, touching the end of 7, same text) merged into 7 *)
+Example C11_mixed_example :
+  map (fun x => (uid x, st x, en x, item_text x)) (unfragment ex_unfrag) =
+  [(2%N, 0, 6, [65%N]); (4%N, 3, 5, [66%N]); (6%N, 7, 7, [66%N]); (5%N, 8, 9, [65%N]); (7%N, 10, 12, [66%N])].
+Proof. exact ex_unfrag_result. Qed.
+Example C11_mixed_example_hyps : wf ex_unfrag /\ In (ex_cue 5 8 9 65) (unfragment ex_unfrag) /\ In (ex_cue 6 7 7 66) (unfragment ex_unfrag).
+Proof. split; [exact ex_unfrag_wf | split; [exact ex_unfrag_isolated_5 | exact ex_unfrag_isolated_6]]. Qed.
+(* the hypotheses of C11_inverse discharged on a list with three texts, overlap, nesting and abutting cues of
+   different texts; period 4 cuts it into 10 pieces; the instance of the theorem *)
+Example C11_inverse_hyps : sorted ex_inv /\ no_touch ex_inv /\ Forall (fun x => st x < en x) ex_inv /\
+  length ex_inv = 5%nat /\ length (fragment 4 ex_inv) = 10%nat.
+Proof. repeat split; [exact ex_inv_sorted | exact ex_inv_no_touch | exact ex_inv_positive]. Qed.
+Example C11_inverse_instance : map proj (unfragment (fragment 4 ex_inv)) = map proj ex_inv.
+Proof. exact (C11_inverse 4 ex_inv eq_refl ex_inv_sorted ex_inv_no_touch ex_inv_positive). Qed.
+
+Print Assumptions C11_untouched_in_mixed.
+Print Assumptions C11_untouched_unique_text.
+Print Assumptions C11_untouched_zero_length.
